@@ -90,7 +90,9 @@ CONC_RULE = ('a seeded set-up history (3-15 requests) builds a state; then '
              'under several schedules (quick: 5 drawn; thorough: EVERY '
              'single-pre-emption schedule - each request parked before each '
              'of its transactions, the others run in both orders - plus 4 '
-             'uniform ones); the serial replays are computed once per batch. '
+             'uniform ones; for 8% of the batches additionally every '
+             'schedule with TWO pre-emptions between its first two requests); '
+             'the serial replays are computed once per batch. '
              'evaluations = batches; schedules executed are in '
              'reach_probes.schedules_run. distinct_nontrivial '
              'counts DISTINCT (request kinds, schedule signature = sequence '
@@ -99,7 +101,8 @@ CONC_RULE = ('a seeded set-up history (3-15 requests) builds a state; then '
              'transactions of one request.')
 CONC_N = {'quick': 1200, 'thorough': 8000}
 CONC_SCHED = {'quick': {'n_schedules': 5},
-              'thorough': {'n_schedules': 4, 'enumerate': True}}
+              'thorough': {'n_schedules': 4, 'enumerate': True,
+                           'enumerate2': 0.08}}
 CONC_ASSUME = [
     'interleavings are at database-transaction granularity with each '
     'transaction atomic and isolated (as the property states); weaker '
